@@ -126,6 +126,81 @@ impl<'a, T: Assumable, const N: usize> AssumableReasoning<T> for FixA<'a, T, N> 
         self.0.get_all_untested_assumptions()
     }
 }
+pub struct FixI<'a, T: Inferable, const N: usize>(&'a [T; N]);
+impl<'a, T: Inferable, const N: usize> InferableReasoning<T> for FixI<'a, T, N> {
+    fn len(&self) -> usize {
+        self.0.len()
+    }
+    fn is_empty(&self) -> bool {
+        self.0.is_empty()
+    }
+    fn get_all_items(&self) -> Vec<&T> {
+        self.0.get_all_items()
+    }
+    fn get_all_inferable(&self) -> Vec<&T> {
+        self.0.get_all_inferable()
+    }
+    fn get_all_inverse_inferable(&self) -> Vec<&T> {
+        self.0.get_all_inverse_inferable()
+    }
+    fn get_all_non_inferable(&self) -> Vec<&T> {
+        self.0.get_all_non_inferable()
+    }
+    fn all_inferable(&self) -> bool {
+        self.0.all_inferable()
+    }
+    fn all_inverse_inferable(&self) -> bool {
+        self.0.all_inverse_inferable()
+    }
+    fn all_non_inferable(&self) -> bool {
+        self.0.all_non_inferable()
+    }
+    fn conjoint_delta(&self) -> NumericalValue {
+        self.0.conjoint_delta()
+    }
+    fn number_inferable(&self) -> NumericalValue {
+        self.0.number_inferable()
+    }
+    fn number_inverse_inferable(&self) -> NumericalValue {
+        self.0.number_inverse_inferable()
+    }
+    fn number_non_inferable(&self) -> NumericalValue {
+        self.0.number_non_inferable()
+    }
+    fn percent_inferable(&self) -> NumericalValue {
+        self.0.percent_inferable()
+    }
+    fn percent_inverse_inferable(&self) -> NumericalValue {
+        self.0.percent_inverse_inferable()
+    }
+    fn percent_non_inferable(&self) -> NumericalValue {
+        self.0.percent_non_inferable()
+    }
+}
+pub struct FixO<'a, T: Observable, const N: usize>(&'a [T; N]);
+impl<'a, T: Observable, const N: usize> ObservableReasoning<T> for FixO<'a, T, N> {
+    fn len(&self) -> usize {
+        self.0.len()
+    }
+    fn is_empty(&self) -> bool {
+        self.0.is_empty()
+    }
+    fn get_all_items(&self) -> Vec<&T> {
+        self.0.get_all_items()
+    }
+    fn number_observation(&self, target_threshold: NumericalValue, target_effect: NumericalValue) -> NumericalValue {
+        self.0.number_observation(target_threshold, target_effect)
+    }
+    fn number_non_observation(&self, target_threshold: NumericalValue, target_effect: NumericalValue) -> NumericalValue {
+        self.0.number_non_observation(target_threshold, target_effect)
+    }
+    fn percent_observation(&self, target_threshold: NumericalValue, target_effect: NumericalValue) -> NumericalValue {
+        self.0.percent_observation(target_threshold, target_effect)
+    }
+    fn percent_non_observation(&self, target_threshold: NumericalValue, target_effect: NumericalValue) -> NumericalValue {
+        self.0.percent_non_observation(target_threshold, target_effect)
+    }
+}
 /// runs `$f` on the `arr` holder: as a fixed-size array `[T; N]` when it has 2, 4, 6 or 8 members, as the slice otherwise
 macro_rules! on_arr {
     ($fix:ident, $sl:expr, $f:expr) => {{
@@ -444,10 +519,10 @@ impl Interp for C12 {
                 s.tw.verify_all_assumptions(&d);
                 each_fix!(FixA, s, |c| twice(&|| dump_assumable(c)))
             }
-            (Fam::Infer(s), "q") => each!(s, |c| twice(&|| dump_inferable(c))),
+            (Fam::Infer(s), "q") => each_fix!(FixI, s, |c| twice(&|| dump_inferable(c))),
             (Fam::Observe(s), "q") => {
                 let (t, e) = (fl(a[0]), fl(a[1]));
-                each!(s, |c| twice(&|| dump_observable(c, t, e)))
+                each_fix!(FixO, s, |c| twice(&|| dump_observable(c, t, e)))
             }
             (Fam::Cause(s), "q") => each_fix!(FixC, s, |c| twice(&|| dump_causable(c))),
             (Fam::Cause(s), "reason") => {
